@@ -70,6 +70,8 @@ type MemState struct {
 	OwnerRole string // e.g. "own1"
 	MfgRole   string
 	NoChains  bool // owner keys have no certificate chain (forces X509 instead of X5Chain)
+	// BeforeInvalidate, when set, runs at the start of InvalidateToken
+	BeforeInvalidate func(ctx context.Context, tok string)
 }
 
 // NewMemState returns an empty store.
@@ -96,6 +98,9 @@ func (s *MemState) NewToken(ctx context.Context, p protocol.Protocol) (string, e
 // InvalidateToken implements protocol.TokenService.
 func (s *MemState) InvalidateToken(ctx context.Context) error {
 	tok, _ := ctx.Value(tokenKey{}).(string)
+	if h := s.BeforeInvalidate; h != nil {
+		h(ctx, tok) // lets a harness act at the instant a session is about to end (the store is not locked)
+	}
 	s.mu.Lock()
 	defer s.mu.Unlock()
 	if _, ok := s.sessions[tok]; !ok {
